@@ -466,8 +466,9 @@ class StorageRunner:
             elif o == 'hist':
                 h = st.history(p64(int(tk[1])), 1000)
                 r = '[' + ','.join(str(u64(d['tid'])) for d in h) + ']'
-            elif o == 'undo':
-                # undo <tid> <oid> <ctid> <undone> <pre> <cur>: a whole undo transaction of `undone`
+            elif o in ('undo', 'undotxn'):
+                # undo <tid> <oid> <ctid> <undone> <pre> <cur> | undotxn <tid> <oid> <undone>:
+                # a whole undo transaction of the transaction with tid `undone`
                 import base64
                 from ZODB.Connection import TransactionMetaData
                 from ZODB.utils import load_current
@@ -475,7 +476,7 @@ class StorageRunner:
                 del K.CALLS[:]
                 st.tpc_begin(txn, p64(int(tk[1])))
                 try:
-                    st.undo(base64.encodebytes(p64(int(tk[4]))).rstrip(), txn)
+                    st.undo(base64.encodebytes(p64(int(tk[4] if o == 'undo' else tk[3]))).rstrip(), txn)
                     st.tpc_vote(txn)
                     st.tpc_finish(txn)
                     calls = take_calls()
